@@ -359,6 +359,28 @@ def c18_plan(run, replay=None):
 
 
 # ---------------------------------------------------------------------------------------------- static
+def is_cursor_replay(replay):
+    return bool(replay) and ".cursor-" in json.load(open(replay)).get("check", "")
+
+
+def cursor_stage(run, replay=None):
+    """The CSV cursor (package csv) as a sequential object: scripts of calls generated by TLC from spec/CsvCursorMC.tla
+    (exhaustive short scripts over small tables, random long ones over all tables) replayed on the real csv.File and
+    judged by spec/CsvCursorObs.tla."""
+    q = run.tier == "quick"
+    if replay:
+        replay_cases(run, replay, "cursor_cases.ndjson")
+    else:
+        run.tlc("CsvCursorMC", "CSV_exhaustive3.cfg" if q else "CSV_exhaustive.cfg", "design", workers=8, cases_out="cursor_cases.ndjson")
+        run.tlc("CsvCursorMC", "CSV_sim.cfg", "design", workers=1, simulate=1500 if q else 30000, depth=13, seed=run.seed,
+                cases_out="cursor_cases.ndjson")
+    s = run.harness("csvapi", ["-in", "cursor_cases.ndjson", "-out", "cursor_obs.ndjson"], timeout=1200)
+    run.load_inputs("cursor_obs.ndjson.inputs")
+    run.validate_trace("CsvCursorObs", "cursor_obs.ndjson", s["cases"], timeout=1800)
+    if not replay:
+        run.floor("cursor_scripts", run.counters.get("cursor_scripts", 0), 2000)
+
+
 def static_plan(prop, pools_quick, pools_thorough, floors, large=False):
     """large: also judge large feeds generated by the harness (hundreds of rows per file, synthesized ids, shuffled
     stop_times/shapes rows, every second feed with ~8% damaged rows): sizes TLC does not enumerate, where result slices
@@ -367,6 +389,10 @@ def static_plan(prop, pools_quick, pools_thorough, floors, large=False):
         q = run.tier == "quick"
         run.build_harness()
         gen = []
+        if is_cursor_replay(replay):
+            cursor_stage(run, replay)
+            only(run, [prop + "."])
+            return run.finish("one cursor script (replay)", [], exhaustive=False)
         if replay:
             replay_cases(run, replay, "cases.ndjson")
         else:
@@ -377,6 +403,8 @@ def static_plan(prop, pools_quick, pools_thorough, floors, large=False):
         s = run.harness("static", ["-in", "cases.ndjson", "-out", "obs.ndjson", "-seed", run.seed] + gen, timeout=3000)
         run.load_inputs("obs.ndjson.inputs")
         run.validate_trace("GtfsStaticObs", "obs.ndjson", s["cases"], timeout=3000)
+        if prop in ("C01", "C09", "C10") and not replay:
+            cursor_stage(run)
         only(run, [prop + "."] + (["relation-base-parses"] if prop in ("C08", "C09", "C10") else []))
         if not replay:
             for name, minimum in floors.items():
@@ -412,6 +440,7 @@ def c05_plan(run, replay=None):
     s = run.harness("static", ["-in", "static.ndjson", "-out", "static_obs.ndjson", "-seed", run.seed], timeout=3000)
     run.load_inputs("static_obs.ndjson.inputs")
     run.validate_trace("GtfsStaticObs", "static_obs.ndjson", s["cases"], timeout=3000)
+    cursor_stage(run)
     # 3. realtime messages with NYCT data under every extension configuration, hostile journals
     run.tlc("NyctTripsMC", "C16_all.cfg", "design", workers=8, cases_out="nt.ndjson")
     run.harness("nycttrips", ["-in", "nt.ndjson", "-out", "nt_obs.ndjson", "-origins", "none"], timeout=3000)
